@@ -238,8 +238,12 @@ def addr_text(rep, u, fname="sa_addr_to_str"):
             undec = undec or "%s: %s" % (what, ret)
             continue
         fmt = [x for e, b in ev for x, _ in walk(e) if x.get("k") == "call" and x.get("fn") in ("snprintf", "__builtin___snprintf_chk")]
+        ntop = [x for e, b in ev for x, _ in walk(e) if x.get("k") == "call" and x.get("fn") == "inet_ntop"]
         reported = ev[-1][1].get("*(%s)" % p_ret) if ev else None
-        if not fmt:
+        if fmt and ntop:
+            bad = bad or ("%s: inet_ntop writes its longer mixed text into the caller's buffer first: a buffer that holds the final text (\"::1:80\", 7 bytes) is refused "
+                          "unless it also holds \"::0.1.0.128\" (12 bytes)" % what)
+        elif not fmt:
             bad = bad or "%s: the text is returned as inet_ntop wrote it (\"::0.1.0.128\" instead of the RFC 5952 form \"::1:80\")" % what
         elif (ret == 0) != (L2 < size):
             bad = bad or "%s: returns %s" % (what, ret)
